@@ -58,7 +58,8 @@ def run(tier, replay=None):
                            res, "C13"):
             C.check_coverage(res, ["SetNF", "SetRE", "SetBad", "SetStd",
                                    "AddNoise", "Select", "RoundTrip",
-                                   "Misfit", "SimMisfit"], "SurveyNoise")
+                                   "Misfit", "SimMisfit", "NewSimMisfit"],
+                             "SurveyNoise")
         rep.cov["exhaustive"] = True
         r = C.run_tlc("SurveyNoise", "SurveyNoise_dev.cfg", timeout=600)
         C.tlc_must_run(r, "SurveyNoise_dev")
@@ -72,6 +73,13 @@ def run(tier, replay=None):
         if not r.violated:
             raise C.MachineryError("TLC did not find the stale-weights "
                                    "deviation")
+        r = C.run_tlc("SurveyNoise", "SurveyNoise_dev_newsim.cfg",
+                      timeout=900)
+        C.tlc_must_run(r, "SurveyNoise_dev_newsim")
+        rep.canary(r.violated == "NewSimFollowsNoise")
+        if r.violated != "NewSimFollowsNoise":
+            raise C.MachineryError("TLC did not find the deviation 'a new "
+                                   "simulation reuses cached weights'")
         n = 400 if tier == "quick" else 8000
         behs, sres = G.simulate("SurveyNoise", "SurveyNoise_walk.cfg", n, 8,
                                 rng.randrange(10**6))
